@@ -23,7 +23,7 @@ def handle (j : Json) : IO Unit := do
   let cErr := jstr (jget cl "err")
   let order := (jstrList (jget impl "order")).map (idxOf eps)
   -- model
-  let (tr, res) := execute (selectPrio eps) (outcomeOf eps) (candidates eps)
+  let (tr, res) := execute (selectPrio eps) (outcomeOfIn (jstr (jget sc "engine")) (jnat (jget sc "read_timeout_ms")) eps) (candidates eps)
   let mOrder := (contactedList tr).filter (fun i => (eps.find? (·.idx == i)).map (·.kind) != some "refuse")
   let mOffline := offlineList tr
   let mView := clientStatus tr
